@@ -49,7 +49,12 @@ def o1_update(ctx, role, lvl, n, frames=1, tr=None, first=None, relay=False, ful
             # the first frame of a sequence is restricted to the frames after which update() keeps reading: addressed to the
             # multicast address (first="multicast") or to multicast / the node itself (first="consumed"); its other fields stay symbolic
             to = payload[2] | (payload[3] << 8)
-            if isinstance(first, int):  # quick tier: a multicast-addressed frame of the given type from an unassigned node
+            if isinstance(first, list) and first[0] == "to-child":
+                # a frame of ANY type from the master for a direct child of this node: the node is its last hop (for types
+                # 65..191 it also owes the origin a NETWORK_ACK) - and update() reads on afterwards
+                child = addr | (ctx.int("child_digit", 1, 5) << (3 * lvl))
+                ctx.assume(s_and(to == child, (payload[0] | (payload[1] << 8)) == 0))
+            elif isinstance(first, int):  # quick tier: a multicast-addressed frame of the given type from an unassigned node
                 ctx.assume(s_and(to == 0o100, (payload[0] | (payload[1] << 8)) == 0o4444, payload[6] == first))
             elif isinstance(first, list):  # [type, origin]: a frame of that type addressed to this node from that origin
                 ctx.assume(s_and(to == addr, (payload[0] | (payload[1] << 8)) == first[1], payload[6] == first[0]))
@@ -85,6 +90,20 @@ def o1_update(ctx, role, lvl, n, frames=1, tr=None, first=None, relay=False, ful
         ctx.check(len(sent) == 0, "frames shorter than a header / with an invalid address are not retransmitted")
     for e in sent:
         ctx.check(len(e["data"]) >= 8 and len(e["data"]) <= 32, "whatever the node transmits is a frame of 8..32 bytes")
+    if frames > 1 and not droppable:
+        # per frame: an invalid frame of a sequence is neither retransmitted nor queued, whatever came before it in the same pass
+        for payload in payloads:
+            if n < 8:
+                continue
+            h = header_of(payload)
+            if not bool(s_or(s_not(NS.valid_or_multicast(h["to_node"])), s_not(NS.valid_or_multicast(h["from_node"])))):
+                continue
+            for e in sent:
+                ctx.check(s_not(bytes_eq(e["data"][:8], blist(payload)[:8])) if len(e["data"]) >= 8 else True,
+                          "a frame with an invalid address is not retransmitted (also when it follows a handled frame)")
+            for q in queued:
+                ctx.check(s_not(s_and(q.header.from_node == h["from_node"], q.header.to_node == h["to_node"], q.header.frame_id == h["frame_id"])),
+                          "a frame with an invalid address is not queued (also when it follows a handled frame)")
     ctx.observe("ret", ret)
     ctx.observe("n_sent", len(sent))
     ctx.reached()
@@ -168,6 +187,10 @@ def jobs(tier):
     out.append(Job("O1-update-two-frames", o1_update, dict(role="master", lvl=0, n=8, frames=2,
                                                            first=[195, 0o12] + (["discarded-second"] if tier == "quick" else [])),
                    cost=400, shards=(8 if tier == "quick" else 16)))
+    # ... and a frame this node delivers to one of its children as the last hop, then a frame it must discard
+    for role, lvl in ((("net", 1),) if tier == "quick" else (("net", 1), ("routing", 2), ("mesh", 3), ("net", 3))):
+        out.append(Job("O1-update-two-frames-last-hop-then-invalid", o1_update,
+                       dict(role=role, lvl=lvl, n=8, frames=2, first=["to-child", None, "discarded-second"]), cost=300, shards=8))
     if tier == "thorough":
         # every role; first frame of every type the network layer treats specially (and a user type), addressed to the multicast
         # address from an unassigned node, or to this node from 0o12
@@ -195,7 +218,7 @@ META = {
                "thorough": "lengths 0..13, 16, 20, 24, 28, 31, 32 on every role and level; two-frame sequences on every role whose first frame has one of 12 "
                            "types (user, NETWORK_EXT_DATA, the three fragment types, 193..199) and is addressed to the multicast address from an unassigned "
                            "node or to the node itself from 0o12; a short payload of every length 0..7 after a handled frame"},
-    "outside": ["sequences of more than 2 frames; two-frame sequences whose first frame is routed elsewhere (update() returns after it)", "lease tables with more than 2 entries (C16 goes to 5)",
+    "outside": ["sequences of more than 2 frames; two-frame sequences whose first frame is routed elsewhere other than from the master to a direct child (the last-hop family)", "lease tables with more than 2 entries (C16 goes to 5)",
                 "the mesh node at the unassigned address 0o4444 is covered as level-4 instance 0o4444 of the symbolic digits"],
     "assumptions": ["one outcome per transmitted packet (all automatic and forced retries of that packet share it)",
                     "virtual clock, 1 ms tick; SimRadio; reference address predicate specs/net_spec.valid_or_multicast"],
